@@ -99,7 +99,7 @@ DIGITSEP = Sub(r"(?<=[0-9a-fA-F])'(?=[0-9a-fA-F])", "", None)
 O_RULES = [
     DIGITSEP,
     Call(r"\bflag\.status_\.load", "status_load(&flag->status_)", None),
-    Call(r"\bflag\.status_\.compare_exchange_strong", "status_cas(&flag->status_, &{0}, {1})", None),
+    Call(r"\bflag\.status_\.compare_exchange_strong", "status_cas(&flag->status_, {0}, {1})", None),
     Call(r"\bflag\.status_\.store", "status_store(&flag->status_, {0})", None),
     Call(r"\bflag\.event_\.(reset|set|wait)", "event_{h1}(&flag->event_)", None),
     Call(r"\bPIKA_INVOKE", "if (once_invoke_f()) VX_THROW_POINT", None),
